@@ -427,3 +427,62 @@ func itoaCallOrdinal(fd *ast.FuncDecl, target *ast.CallExpr) string {
 	}
 	return s
 }
+
+// checkIntegerBeforeFloat (R11): a json.Number that is to become a Go value is tried as an integer first. Float64()
+// succeeds for every integer literal, so a conversion that asks it first never reaches the integer case, and integers
+// beyond 2^53 are rounded on their way through float64.
+func checkIntegerBeforeFloat(r *Run, p *packages.Package) {
+	const rule = "C18-R11-integer-before-float"
+	info := p.TypesInfo
+	n := 0
+	for _, name := range sortedKeys(FuncDecls(p)) {
+		fd := FuncDecls(p)[name]
+		if fd.Body == nil {
+			continue
+		}
+		first := map[types.Object]map[string]token.Pos{}
+		ast.Inspect(fd.Body, func(x ast.Node) bool {
+			call, ok := x.(*ast.CallExpr)
+			if !ok || len(call.Args) != 0 {
+				return true
+			}
+			sel, ok := call.Fun.(*ast.SelectorExpr)
+			if !ok || (sel.Sel.Name != "Int64" && sel.Sel.Name != "Float64") {
+				return true
+			}
+			if nt := namedOf(info.TypeOf(sel.X)); nt == nil || nt.Obj().Pkg() == nil || nt.Obj().Pkg().Path() != "encoding/json" || nt.Obj().Name() != "Number" {
+				return true
+			}
+			id, ok := ast.Unparen(sel.X).(*ast.Ident)
+			if !ok {
+				return true
+			}
+			o := info.Uses[id]
+			if first[o] == nil {
+				first[o] = map[string]token.Pos{}
+			}
+			if _, seen := first[o][sel.Sel.Name]; !seen {
+				first[o][sel.Sel.Name] = call.Pos()
+			}
+			return true
+		})
+		for o, m := range first {
+			ip, hasI := m["Int64"]
+			fp, hasF := m["Float64"]
+			if !hasF {
+				continue
+			}
+			n++
+			construct := funcDeclName(fd) + ":" + o.Name()
+			switch {
+			case !hasI:
+				r.Fail(rule, construct, fp, "the number is converted with Float64() only: an integer beyond 2^53 is rounded (9007199254740993 becomes 9007199254740992)")
+			case fp < ip:
+				r.Fail(rule, construct, fp, "Float64() is asked before Int64(): it succeeds for every integer literal, so the integer case is never reached and an integer beyond 2^53 is rounded (9007199254740993 becomes 9007199254740992)")
+			default:
+				r.Pass(rule, construct, ip, "Int64() is tried first, Float64() only for what is not an integer")
+			}
+		}
+	}
+	r.Counts[rule+":conversions"] = n
+}
